@@ -35,11 +35,19 @@ CLAIMED = {
     'C09': ('rounding conversions: finer->coarser scaled_integer under nearest / tie-to-+inf / floor with division-free correctly-rounded postconditions for all source values whose result is representable; '
             'float/double -> integer under tie-to-+inf and floor through CBMC IEEE-754; the float-adjacent-to-tie defect is a KNOWN-FINDING', '5 C09',
             'nearest float->integer uses long double (x87): refused; long double sources not claimed'),
+    'C10': ('wide_integer beyond 128 bits: + - unary- & | ^ == < on the public operators proved equal to the storage-width two\'s-complement operation on the concatenated limbs, '
+            'for all operand values, limb loops closed by complete unwinding; same contracts for 16/32/64-bit limbs (thorough)', '5 C10',
+            'multi-limb * / %, shifts with symbolic count, decimal text and float conversion are beyond the back ends here (not claimed)'),
+    'C11': ('static_integer / static_number: public + - * (and / , narrowing conversion in the thorough tier) with the whole overflow/elastic/rounding/wide tower inlined: exact (or correctly rounded) result within the declared digits of the result type, '
+            'or the tag\'s overflow reaction; operation chains follow from requires = ensures-type-invariant', '5 C11',
+            'small digit counts only (7..15): whole-tower inlining is memory-bound; multi-word storage under C10'),
     'C12': ('native-tag wrappers: every public operator (and wrapper-level / plain-operator layer) proved equal to the built-in expression on the reps under exactly the precondition '
             '"the built-in expression is defined", for all operand values; promoted result type as compile-time fact', '5 C12', '64x64-bit multiply/divide equalities not claimed'),
     'C13': ('integer to_chars: DFCC frame obligation assigns([first,last)), pointer/bounds obligations, and the result contract (ptr in (first,last] on success, ptr == last && value_too_large on failure, '
             'bytes after ptr untouched) for every value and every buffer length 0..capacity+2; to_chars_static never fails; recursion closed by complete unwinding', '5 C13',
             'scaled_integer / wide to_chars and operator<< not claimed'),
+    'C14': ('integer text: the characters written by to_chars are the canonical decimal numeral of exactly the value (length, sign, every digit through a ghost index) for all values of 8/16-bit (quick) and 32-bit (thorough) integers', '5 C14',
+            'scaled_integer text, 64-bit and wide integers, to_string/operator<< not claimed'),
     'C16': ('fraction: rational-value postconditions for + - * / and the six comparisons (8/16-bit components), reduce / canonical / std::hash for all int8_t fractions '
             '(std::gcd unwound completely), conversion to float', '5 C16', '>= 32-bit reduce/hash not claimed; multiplication abstracted as an uninterpreted function for the relational clauses'),
     'C18': ('every bit/digit utility of cnl/bit.h and cnl/numeric.h at each width and under both preprocessor configurations carries a contract stating the C++20 <bit> definition as a closed '
@@ -50,9 +58,6 @@ CLAIMED = {
 }
 
 NOT_APPLICABLE = {
-    'C10': 'multi-limb multiply/divide/decimal output are beyond every SAT back end here (probed: 4x16-bit limb multiply vs 64-bit * gave no answer in 20 min); linear operations not yet built',
-    'C11': 'composition of C01/C05/C06/C08/C09 contracts through the static_integer tower; not yet built in this session',
-    'C14': 'needs a decimal parser as a spec function over a symbolic buffer; integer digits attempted after C13, scaled_integer layout case split not built',
     'C15': 'literals, CTAD and constant<>-driven deduction exist only at compile time: clang folds them, the IR holds only the resulting constant, so there is no function to put a contract on; run-time parse() not yet built',
     'C17': 'the mediant search is an unbounded loop whose exit and integer intermediates are controlled by floating-point comparisons, divisions and products; no inductive argument within CBMC\'s bit-level float encoding, unrolling is beyond every back end here; long double inputs are x87',
     'C20': 'the accuracy bound is against a transcendental function: only an extensional table spec is possible (8/16-bit), not built; the constants are closed compile-time terms with no inputs',
